@@ -4,6 +4,7 @@ package main
 
 import (
 	"fmt"
+	"os"
 	"go/constant"
 	"go/token"
 	"go/types"
@@ -96,6 +97,8 @@ type Thread struct {
 	steps     int
 }
 
+var callTrace = os.Getenv("SYMGO_CALLTRACE") != ""
+
 // control signals (Go panics used for non-local exits inside the engine)
 type unwindSignal struct{}
 type pathEnd struct {
@@ -152,6 +155,7 @@ type Interp struct {
 	tier        int
 	deadlockOK  bool
 	hangIsViolation bool
+	failClass   string
 	timerByCell map[*Cell]*Timer
 	crcPoly     map[*Cell]uint32
 }
@@ -261,6 +265,19 @@ func (in *Interp) pushFrame(th *Thread, fn *ssa.Function, args []Value, env []Va
 	fr.block = fn.Blocks[0]
 	th.top = fr
 	in.fnCover[fn]++
+	if callTrace && fn.Pkg != nil && in.prog.isTarget(fn.Pkg) && in.concrete != nil {
+		as := ""
+		for i, a := range args {
+			if i > 3 {
+				break
+			}
+			as += " " + showVal(a, 3)
+		}
+		if len(as) > 160 {
+			as = as[:160]
+		}
+		fmt.Printf("  [t%d] %s%s\n", th.id, fn.String(), as)
+	}
 	return fr
 }
 
